@@ -286,6 +286,18 @@ func wrapTo(t types.Type, term string) string {
 	return fmt.Sprintf("(- (mod (+ %s %s) %s) %s)", term, h.String(), m.String(), h.String())
 }
 
+// wrap1 wraps a term known to lie within one period of the type's range
+// (sum or difference of two in-range values) without using mod.
+func wrap1(t types.Type, term string) string {
+	lo, hi, ok := intRange(t)
+	if !ok {
+		return term
+	}
+	w, _ := intWidth(t)
+	m := new(big.Int).Lsh(big.NewInt(1), uint(w)).String()
+	return fmt.Sprintf("(let ((w!x %s)) (ite (> w!x %s) (- w!x %s) (ite (< w!x %s) (+ w!x %s) w!x)))", term, smtInt(hi), m, smtInt(lo), m)
+}
+
 // rangeAssumption returns a Bool term stating that `term` (of Go type t) is a
 // well-typed value (integer range, slice header sanity, struct fields).
 func (d *Decls) rangeAssumption(t types.Type, term string, depth int) string {
